@@ -885,9 +885,15 @@ def build_evidence(pm, tier, seed, results, goals, proved, refuted, unknown, vio
                     'counterexample': g.get('model'), 'margin': g.get('margin'),
                     'replayed_on_real_code': g.get('confirmed')})
   n_known = len(refuted) - len(violations)
+  # evaluations of bounded stand-ins (clause names starting with 'bounded:' / 'native:') are reported
+  # separately and never counted as discharged obligations
+  is_bounded = lambda g: g['name'].startswith(('bounded:', 'native:'))
+  standin = [g for g in goals if is_bounded(g)]
   coverage = {
-      'obligations': len(goals),
-      'discharged': len(proved),
+      'obligations': len(goals) - len(standin),
+      'discharged': len([g for g in proved if not is_bounded(g)]),
+      'bounded_standin_evaluations': {'evaluated': len(standin), 'held': len([g for g in proved if is_bounded(g)]),
+                                      'note': 'bounded checks of the real code, not proofs'},
       'refuted_known_findings': n_known,
       'refuted_new': len(violations),
       'undecided': len(unknown),
